@@ -254,8 +254,8 @@ def decode_path_functions(fb):
     return reach
 
 
-def r3(ctx):
-    ctx.rule('C12.R3', 'on the decode path, every insertion of an integer into an output stream received from the caller '
+def r3(ctx, rid='C12.R3'):
+    ctx.rule(rid, 'on the decode path, every insertion of an integer into an output stream received from the caller '
              'is preceded on every path inside the function by an insertion of dec/hex/oct into that stream, with no '
              'call in between that receives the stream (a callee such as StringDataType::readSymbols leaves hex set); '
              'otherwise the printed number depends on what was formatted before', minimum=20, star=True)
@@ -311,13 +311,13 @@ def r3(ctx):
                 arg = fn.nodes[i]['args'][1]
                 construct = 'insert integer %s into %s' % (fn.key(arg), pname)
                 if i in bad:
-                    ctx.ob('C12.R3', fn, i, False, construct,
+                    ctx.ob(rid, fn, i, False, construct,
                            'number base of the stream is inherited (no dec/hex since entry or since the stream was handed '
                            'to another function)', witness=ex.describe_path(bad[i]))
                 elif i in good:
-                    ctx.ob('C12.R3', fn, i, True, construct, 'base set on all paths')
+                    ctx.ob(rid, fn, i, True, construct, 'base set on all paths')
     if nfn < 5:
-        raise AnalysisBroken('C12.R3: only %d decode-path functions with integer insertions (confirmed: >= 5)' % nfn)
+        raise AnalysisBroken(rid + ': only %d decode-path functions with integer insertions (confirmed: >= 5)' % nfn)
 
 
 # ---------------------------------------------------------------------------
@@ -404,8 +404,8 @@ def float_state_change(fn, arg):
     return out
 
 
-def r5(ctx):
-    ctx.rule('C12.R5', 'on the decode path, every insertion of a floating point value into an output stream received from '
+def r5(ctx, rid='C12.R5'):
+    ctx.rule(rid, 'on the decode path, every insertion of a floating point value into an output stream received from '
              'the caller is preceded on every path inside the function by a definition of the float format (fixed / '
              'scientific / resetiosflags of all flags) and of the precision (setprecision), with no call in between that '
              'receives the stream; otherwise a sticky "fixed" or precision left by an earlier field changes the text',
@@ -454,12 +454,12 @@ def r5(ctx):
                 construct = 'insert floating value %s into %s' % (fn.key(fn.nodes[i]['args'][1]), pname)
                 if i in bad:
                     what = {'field': 'float format (fixed/scientific/reset)', 'prec': 'precision'}
-                    ctx.ob('C12.R5', fn, i, False, construct, 'inherited from earlier output: ' +
+                    ctx.ob(rid, fn, i, False, construct, 'inherited from earlier output: ' +
                            ', '.join(what[m] for m in bad[i][0]), witness=ex.describe_path(bad[i][1]))
                 elif i in good:
-                    ctx.ob('C12.R5', fn, i, True, construct, 'float format and precision defined on all paths')
+                    ctx.ob(rid, fn, i, True, construct, 'float format and precision defined on all paths')
     if n < 4:
-        raise AnalysisBroken('C12.R5: only %d floating point insertions on the decode path (confirmed: >= 4)' % n)
+        raise AnalysisBroken(rid + ': only %d floating point insertions on the decode path (confirmed: >= 4)' % n)
 
 
 def run(ctx):
